@@ -307,6 +307,12 @@ func c11(c *Ctx) {
 					}
 				}
 			}
+			// handlers held by a route table the function mentions
+			for _, cal := range c.tableCallees(fi) {
+				if cal.Pkg.PkgPath == pathAPI {
+					visit(cal)
+				}
+			}
 		}
 		visit(root)
 		return seen
@@ -797,7 +803,7 @@ func c11(c *Ctx) {
 			case *ast.SelectorExpr:
 				// method values of handler-shaped methods (not in call position) other than the two registrations
 				sel, ok := info.Selections[x]
-				if !ok || sel.Kind() != types.MethodVal {
+				if !ok || (sel.Kind() != types.MethodVal && sel.Kind() != types.MethodExpr) {
 					return true
 				}
 				m, _ := sel.Obj().(*types.Func)
@@ -820,6 +826,38 @@ func c11(c *Ctx) {
 			return true
 		})
 	}
+	// route tables: a package-level variable that holds handlers may be used by the dispatchers (and handlers) only
+	tabs := c.funcTables()
+	routeTable := func(v *types.Var) bool {
+		for _, cal := range tabs[v] {
+			if handlerShaped(cal) {
+				return true
+			}
+		}
+		return false
+	}
+	for _, fi := range c.P.AllFuncs {
+		if fi.Body() == nil {
+			continue
+		}
+		info := fi.Info()
+		seenTab := map[*types.Var]bool{}
+		ast.Inspect(fi.Body(), func(n ast.Node) bool {
+			id, ok := n.(*ast.Ident)
+			if !ok {
+				return true
+			}
+			v, ok := info.Uses[id].(*types.Var)
+			if !ok || seenTab[v] || !routeTable(v) {
+				return true
+			}
+			seenTab[v] = true
+			okUser := fi == pub || fi == privNA || (handlerShaped(fi) && fi != priv)
+			r.Check(okUser, "C11.H5", fi.Name(), "uses route table "+v.Name(), c.P.Pos(id.Pos()), "used by a dispatcher (or a handler) only",
+				"a table of HTTP handlers is used from outside the dispatchers: its routes can be called or changed around the gates")
+			return true
+		})
+	}
 	r.Floor("C11.H5", 15)
 	// private handlers (the routes DispatchPrivateWithoutAuth dispatches to directly) are not reachable from DispatchPublic
 	nPriv := 0
@@ -831,6 +869,13 @@ func c11(c *Ctx) {
 		}
 		nPriv++
 		r.Check(!pubReach[cal], "C11.H5", pub.Name(), "private route "+shortName(cal)+" not reachable publicly", c.P.Pos(call.Pos()), "not in DispatchPublic's call closure", "an admin route is reachable from DispatchPublic, i.e. without the network password")
+	}
+	for _, cal := range c.tableCallees(privNA) {
+		if !handlerShaped(cal) {
+			continue
+		}
+		nPriv++
+		r.Check(!pubReach[cal], "C11.H5", pub.Name(), "private route "+shortName(cal)+" not reachable publicly", c.P.Pos(cal.Node().Pos()), "not in DispatchPublic's call closure", "an admin route is reachable from DispatchPublic, i.e. without the network password")
 	}
 	r.Check(nPriv >= 10, "C11.H5", privNA.Name(), "private routes enumerated", c.P.Pos(privNA.Node().Pos()), "found", "fewer private routes than expected (vacuity guard)")
 	_ = privReach
